@@ -1,6 +1,7 @@
 // Package c06: both halves of a bidirectional /io shell come from the same
 // request.  The 2n halves of n simultaneously arriving requests are parked at
-// the admission point and released in every order.
+// the admission point and released in every order; in engine selfend (selfend.go)
+// a half that was admitted also finishes by itself before its sibling is admitted.
 package c06
 
 import (
@@ -161,8 +162,8 @@ func judge(x *bk.Exec, viol func(key, what string)) {
 }
 
 func Run(r *mon.Run) {
-	r.Rule = "n = 2..4 bidirectional requests arrive together; their 2n halves are parked at the admission hook and released in a chosen permutation (every permutation for n = 2 and 3 in both tiers, for n = 4 sampled in quick and complete in thorough) on top of six base states (idle, unidirectional in-only/out-only/full, unidirectional or bidirectional shell held inside its tear-down window, optionally released half-way through the admissions); after each decision and after a probe the set of clients owning an attached half must have size <= 1. Every (n, base, order, late-release) tuple is distinct and non-trivial by construction. Engine replay: the internal keys that the first 1-3 /io requests of ONE broker presented at the admission hook are used as unidirectional callback IDs against a FRESH broker whose 1st-3rd /io request is half attached or about to arrive (what a client could learn from its own copy of the program); no shell may consist of an /io half and that stream. Plus free-running stress (no gates) with 2-4 racing clients"
-	r.Assumptions = []string{"parking at the admit hook (outside b.mu) only chooses among orders the two racing goroutines of ConnectInOut can produce by themselves"}
+	r.Rule = "n = 2..4 bidirectional requests arrive together; their 2n halves are parked at the admission hook and released in a chosen permutation (every permutation for n = 2 and 3 in both tiers, for n = 4 sampled in quick and complete in thorough) on top of six base states (idle, unidirectional in-only/out-only/full, unidirectional or bidirectional shell held inside its tear-down window, optionally released half-way through the admissions); after each decision and after a probe the set of clients owning an attached half must have size <= 1. Every (n, base, order, late-release) tuple is distinct and non-trivial by construction. Engine selfend: between two admissions something ENDS: 1-3 requests (request A an /io request, the others /io requests or unidirectional i+o pairs) park at the admission hook on a broker that is idle (never used, or after a unidirectional / bidirectional shell has come and gone); the half admitted first is attached alone and then finishes BY ITSELF before its sibling is admitted, in every way its transport allows (input half: the next operator line's Write fails, its flush fails, the operator input channel is closed; output half: the body ends, fails, or delivers a last chunk with EOF; a cancelled request context is deliberately not among them), with its release section run at once (operator told the shell is gone), or parked before it until the sibling / the next admission has been decided; halves of the other requests are admitted before and after the ending, in every order for 1 and 2 requests (every ending position, x 3 bases x 2-3 hold modes x 5-6 endings), PRNG-sampled with one or two endings for 3. Judged: the rule above after every decision, and: once a half of an /io request has finished and been released the request is over as a whole - its other half is refused, or, if admitted, leaves again by itself with nothing sent to or shown of it (bounded by 10 s; staying attached alone is the violation), ConnectInOut returns, and the NEXT shell (fresh /io request, either half first, or an i+o pair; rotated) is accepted by the idle broker and passes the two-way I/O probe. Engine replay: the internal keys that the first 1-3 /io requests of ONE broker presented at the admission hook are used as unidirectional callback IDs against a FRESH broker whose 1st-3rd /io request is half attached or about to arrive (what a client could learn from its own copy of the program); no shell may consist of an /io half and that stream. Plus free-running stress (no gates) with 2-4 racing clients"
+	r.Assumptions = []string{"parking at the admit hook (outside b.mu) only chooses among orders the two racing goroutines of ConnectInOut can produce by themselves", "engine selfend: a half that is admitted after its sibling has finished and leaves again by itself without any traffic is tolerated (counted as selfend_orphan_half_admitted_and_ended_at_once): the program stops the pair a few instructions after the finished half's connect call has returned, so an admission can fall into that gap; only a half that is still attached 10 s later (bk.Bound, the bounded-progress limit used for every in-process step that normally takes microseconds), with nothing from outside ending it, is a violation", "engine selfend: after the operator input channel has been closed (ending closeich, one request only) no further shell is tried: the program is exiting then"}
 	var cases []caseT
 	for _, n := range []int{2, 3} {
 		for _, p := range perms(2 * n) {
@@ -196,6 +197,9 @@ func Run(r *mon.Run) {
 			}
 		})
 	}
+	if r.WantEngine("selfend") {
+		selfEndEngine(r)
+	}
 	if r.WantEngine("replay") {
 		replayKeys(r)
 	}
@@ -206,7 +210,7 @@ func Run(r *mon.Run) {
 		httpRace(r)
 	}
 	r.Exhaustive(false)
-	r.Extra("complete_subspaces", "all admission orders of the halves of 2 and 3 requests x 6 base states (and of 4 requests in the thorough tier)")
+	r.Extra("complete_subspaces", "all admission orders of the halves of 2 and 3 requests x 6 base states (and of 4 requests in the thorough tier); selfend: every admission order x ending position x ending kind x hold mode x base for 1 and 2 requests")
 	r.Floor("io_halves_decided", 10000)
 	r.Floor("io_halves_admitted", 1000)
 }
